@@ -25,13 +25,22 @@ func (cit *CallIterator) M__iter__() (Object, error) {
 
 // Get next one from the iteration
 func (cit *CallIterator) M__next__() (Object, error) {
+	if cit.callable == nil {
+		// the sentinel has been seen: exhausted for good
+		return nil, StopIteration
+	}
 	value, err := Call(cit.callable, nil, nil)
 
 	if err != nil {
 		return nil, err
 	}
 
-	if value == cit.sentinel {
+	eq, err := Eq(value, cit.sentinel)
+	if err != nil {
+		return nil, err
+	}
+	if eq == True {
+		cit.callable = nil
 		return nil, StopIteration
 	}
 
